@@ -113,23 +113,41 @@ Theorem c05_int64_min_plain_literal_refuted : forall dm, In dm dmodels -> c_toke
 Proof. exact int64_min_plain_literal_refuted. Qed.
 Print Assumptions c05_int64_min_plain_literal_refuted.
 
-(* floating-point constants: the rendered expression denotes, before rounding, exactly the rational of the DSDL definition
+(* floating-point constants.  `rf` stands for Python's repr(float(Fraction)) -- ASSUMED (library behaviour, not modelled) to return
+   the shortest decimal that reads back as the double nearest to the rational; the check validates on every run that the string it
+   returns for each out-of-range constant parses (parse_fdec) to a value that rounds to the correctly rounded double.
+   Whenever the integral form `N.0` or the division `(N.0 / D.0)` is rendered (d = 1, or both operands below 2^1023) the expression
+   denotes, before rounding, exactly the rational of the DSDL definition
    (PARTIAL: the rounding of the C/C++ evaluation `((float) (n.0 / d.0))` is not modelled; tied by correspondence within 1 ulp) *)
-Theorem c05_float_expr_denotes_rational : forall n d, 0 < d -> const_float_rational n d = Some (n, d).
+Theorem c05_float_expr_denotes_rational : forall rf n d, 0 < d -> d = 1 \/ division_rendered n d = true ->
+  const_float_rational rf n d = Some (n, d).
 Proof. exact float_expr_denotes_rational. Qed.
 Print Assumptions c05_float_expr_denotes_rational.
 
-(* finding F-FLOAT-LIT-RANGE: an operand of the expression can be a floating constant outside the range of double (witness: DBL_MIN
-   written in decimal); outside that trigger both operands are in range *)
+(* otherwise the rendered text is exactly the oracle's decimal constant *)
+Theorem c05_float_expr_out_of_range_is_oracle : forall rf n d, d <> 1 -> division_rendered n d = false ->
+  const_float_expr rf n d = rf (n, d).
+Proof. exact float_expr_out_of_range_is_oracle. Qed.
+Print Assumptions c05_float_expr_out_of_range_is_oracle.
+
+(* both operands of every rendered division are floating constants within the range of double (no diagnostic, no infinity) *)
+Theorem c05_float_operands_in_range : forall rf n d, 0 < d -> d <> 1 -> division_rendered n d = true ->
+  const_float_rational rf n d = Some (n, d) /\ float_lit_overflows n d = false /\ operands_in_range (const_float_rational rf n d) = true.
+Proof. exact float_operands_in_range. Qed.
+Print Assumptions c05_float_operands_in_range.
+
+Theorem c05_float_integral_operand_in_range : forall rf n, Z.abs n < dbl_lit_limit ->
+  const_float_rational rf n 1 = Some (n, 1) /\ float_lit_overflows n 1 = false.
+Proof. exact float_integral_operand_in_range. Qed.
+Print Assumptions c05_float_integral_operand_in_range.
+
+(* documentation of the repaired defect F-FLOAT-LIT-RANGE (what the code did before bc63e58): the old rendering of DBL_MIN written in
+   decimal had an operand outside the range of double; the repaired code hands that constant to the oracle *)
 Theorem c05_float_operands_in_range_refuted : exists n d,
-  0 < d /\ d <= n * 2 ^ 1022 /\ n < d /\ const_float_rational n d = Some (n, d) /\ const_float_operands_in_range n d = false.
+  0 < d /\ d <= n * 2 ^ 1022 /\ n < d /\ parse_fexpr (old_filter_literal_float_expr (n, d)) = Some (n, d) /\
+  old_const_float_operands_in_range n d = false /\ (forall rf, const_float_expr rf n d = rf (n, d)).
 Proof. exact float_operands_in_range_refuted. Qed.
 Print Assumptions c05_float_operands_in_range_refuted.
-
-Theorem c05_float_operands_in_range_partial : forall n d, 0 < d -> float_lit_overflows n d = false ->
-  const_float_rational n d = Some (n, d) /\ const_float_operands_in_range n d = true.
-Proof. exact float_operands_in_range_partial. Qed.
-Print Assumptions c05_float_operands_in_range_partial.
 
 (* non-vacuity *)
 Definition ex05_inner : ty := TComp false [TPrim (PU 3 true); TVar (TPrim (PS 13 true)) 300] (Some 4912%nat).
@@ -148,5 +166,12 @@ Example c05_example_literals :
   const_int_denotes dm_ip16 false 64 (-9223372036854775808) = Some (CLLong, -9223372036854775808) /\
   const_int_denotes dm_ilp32 true 64 18446744073709551615 = Some (CULLong, 18446744073709551615) /\
   const_int_denotes dm_ip16 false 16 (-32768) = Some (CLong, -32768) /\
-  const_float_rational (-1) 3 = Some (-1, 3).
+  const_float_rational (fun _ => []) (-1) 3 = Some (-1, 3).
+Proof. vm_compute. repeat split; reflexivity. Qed.
+(* DBL_MIN with the string CPython's repr returns: the decimal constant denotes exactly the DSDL rational *)
+Example c05_example_oracle_literal :
+  let rf := fun _ : Z * Z => [50; 46; 50; 50; 53; 48; 55; 51; 56; 53; 56; 53; 48; 55; 50; 48; 49; 52; 101; 45; 51; 48; 56]%N in
+  const_float_expr rf 11125369292536007 (5 * 10 ^ 323) = rf (0, 0) /\
+  const_float_value rf 11125369292536007 (5 * 10 ^ 323) = Some (22250738585072014, 10 ^ 324) /\
+  22250738585072014 * (5 * 10 ^ 323) = 11125369292536007 * 10 ^ 324.
 Proof. vm_compute. repeat split; reflexivity. Qed.
